@@ -721,3 +721,54 @@ Proof.
   split; [|exact Hr].
   intro D. apply (all_distributed zp s e); [apply dist_okb_sound; exact D|exact Hm].
 Qed.
+
+(* ---------------------------------------------------------------- the integer roll-over along EVERY history *)
+
+Lemma step_counters zp s o :
+  o_period (snd (step zp s o)) = peek (s_period (fst (step zp s o))) /\
+  o_skipped (snd (step zp s o)) = peek (s_skipped (fst (step zp s o))).
+Proof.
+  destruct o as [day e|auth b|auth ed|amt]; cbn [step].
+  - unfold after_epoch_end. destruct day; cbn [negb]; [|split; reflexivity].
+    destruct (p_enabled (s_params s)); cbn [negb].
+    + destruct (0 <? provision (s_params s) (peek (s_period s))); cbn [negb]; [|split; reflexivity].
+      destruct (0 <? truncate_int (provision (s_params s) (peek (s_period s)))); cbn [negb]; [|split; reflexivity].
+      destruct (allocate (s_params s) (s_module s) _) as [[[[a b] c] d] f]. split; reflexivity.
+    + destruct (p_started (s_params s)); split; reflexivity.
+  - destruct auth; split; reflexivity.
+  - destruct (auth && valid (merge ed (s_params s))); split; reflexivity.
+  - split; reflexivity.
+Qed.
+
+(** one minting day-epoch end from ANY state with valid proportions: the period moves by the integer test *)
+Lemma roll_one zp s e :
+  dist_ok (s_params s) ->
+  roll_step (s_params s) (s_module s) (peek (s_period s)) (peek (s_skipped s)) e (snd (after_epoch_end zp s true e)).
+Proof.
+  intros Hd Hm He Hk HE Hper Hmul. destruct two62_lt as [T1 [T2 T3]].
+  unfold after_epoch_end. cbn [negb].
+  destruct (p_enabled (s_params s)); cbn [negb].
+  - destruct (0 <? provision (s_params s) (peek (s_period s))) eqn:Pv; cbn [negb]; [|cbn; intro; lia].
+    destruct (0 <? truncate_int (provision (s_params s) (peek (s_period s)))) eqn:Pa; cbn [negb]; [|cbn; intro; lia].
+    apply Z.ltb_lt in Pa.
+    rewrite (allocate_ok _ _ _ Hd Hm (Z.lt_le_incl _ _ Pa)). cbn [andb snd o_minted o_period o_skipped s_period s_skipped].
+    intros _. rewrite rollover_small by lia. split; [|reflexivity].
+    destruct (p_epp (s_params s) <=? e - p_epp (s_params s) * peek (s_period s) - peek (s_skipped s)); [|reflexivity].
+    cbn [peek]. apply wrap_small. rewrite <- T2, <- T1. nia.
+  - destruct (p_started (s_params s)); cbn; intro; lia.
+Qed.
+
+(** EVERY history from EVERY state (consistent or not; counters behind, on, or AHEAD of the epoch number): at each
+    minting day-epoch end the period advances iff e - EPP*period - skipped >= EPP on the integers *)
+Theorem roll_along_every_history zp : forall ops s,
+  P_roll (s_params s) (s_module s) (peek (s_period s)) (peek (s_skipped s)) (combine ops (snd (run zp s ops))).
+Proof.
+  induction ops as [|o r IH]; intro s; [exact I|].
+  rewrite run_cons. cbn [snd combine P_roll].
+  pose proof (IH (fst (step zp s o))) as Hr.
+  destruct (step_counters zp s o) as [C1 C2].
+  rewrite step_params, <- step_module, <- C1, <- C2 in Hr.
+  destruct o as [[|] e|auth b|auth ed|amt]; try exact Hr.
+  split; [|exact Hr].
+  intro D. apply (roll_one zp s e). apply dist_okb_sound. exact D.
+Qed.
